@@ -123,6 +123,26 @@ type PContextRegex interface {
 }
 
 // goverter:converter
+type PContextRegexFunc interface {
+	// goverter:context ctxValue
+	// goverter:map A | MapWithCtx
+	M1(source InCtxF, ctxValue *Ctx) OutCtxF
+	// goverter:context ctxValue
+	// goverter:map A | MapWithCtx2
+	M2(source InCtxF2, ctxValue *Ctx) OutCtxF2
+}
+
+// goverter:converter
+type PContextRegexDefault interface {
+	// goverter:context ctxValue
+	// goverter:default NewWithCtx
+	M1(source InCtxD, ctxValue *Ctx) *OutCtxD
+	// goverter:context ctxValue
+	// goverter:default NewWithCtx2
+	M2(source InCtxD2, ctxValue *Ctx) *OutCtxD2
+}
+
+// goverter:converter
 type PEnumShared interface {
 	M1(source []Color) []Shade
 	M2(source map[string]Color) map[string]Shade
